@@ -30,20 +30,20 @@ def refusedWith (w : World) (o : Obs) : World := { w with log := w.log ++ [o] }
     timer, no state change -/
 theorem connect_refused (w : World) (p : Nat) (a : ConnectArgs) (h : allowed w p 0 = false) :
     apiConnect p a w = (refusedWith w (.retFail .state), none) := by
-  simp [apiConnect, Step.read, h, emit, Step.mod, refusedWith]
+  simp [apiConnect, Step.read, h, emit, World.emit, Step.mod, refusedWith]
 
 theorem publish_refused (w : World) (p : Nat) (t : PyStr) (pl : Payload) (q : Int) (r : Bool)
     (h : allowed w p 4 = false) :
     apiPublish p t pl q r w = (refusedWith w (.retFail .state), none) := by
-  simp [apiPublish, Step.read, h, emit, Step.mod, refusedWith]
+  simp [apiPublish, Step.read, h, emit, World.emit, Step.mod, refusedWith]
 
 theorem subscribe_refused (w : World) (p : Nat) (a : SubArg) (q : Int) (h : allowed w p 2 = false) :
     apiSubscribe p a q w = (refusedWith w (.retFail .state), none) := by
-  simp [apiSubscribe, Step.read, h, emit, Step.mod, refusedWith]
+  simp [apiSubscribe, Step.read, h, emit, World.emit, Step.mod, refusedWith]
 
 theorem unsubscribe_refused (w : World) (p : Nat) (a : UnsubArg) (h : allowed w p 3 = false) :
     apiUnsubscribe p a w = (refusedWith w (.retFail .state), none) := by
-  simp [apiUnsubscribe, Step.read, h, emit, Step.mod, refusedWith]
+  simp [apiUnsubscribe, Step.read, h, emit, World.emit, Step.mod, refusedWith]
 
 /-- disconnect() where it is not allowed raises MQTTStateError and changes nothing at all -/
 theorem disconnect_refused (w : World) (p : Nat) (h : allowed w p 1 = false) :
